@@ -21,8 +21,8 @@ OUTSIDE = 'long cycles, non-linear interpolation kinds and non-linear functions 
           'variance outputs of bin_by_phase, augmented mode'
 ASSUMPTIONS = ['label vectors: labels 0..K-1 in temporal order, every label present, arbitrary -1 gaps (also interrupting a cycle); interleaved/revisited labels are outside',
                'interp1d(linear, extrapolate) modelled as piecewise-linear interpolation (validated by concrete replays)']
-REQUIRED_CLASSES = ['stat:has-gap', 'stat:two-cycles', 'stat:cycle-resumes-after-gap', 'stat:integer-values', 'stat:long-labelling', 'align:run', 'bin:empty-bin', 'bin:last-bin-used']
-EXPECTED_LABELS = ['stat-never-raises', 'stat-per-cycle', 'stat-samples-projection', 'align-never-raises', 'align-linear-exact',
+REQUIRED_CLASSES = ['stat:has-gap', 'stat:two-cycles', 'stat:cycle-resumes-after-gap', 'stat:integer-values', 'stat:long-labelling', 'align:custom-cycles', 'align:run', 'bin:empty-bin', 'bin:last-bin-used']
+EXPECTED_LABELS = ['stat-never-raises', 'stat-per-cycle', 'stat-samples-projection', 'align-never-raises', 'align-linear-exact', 'align-through-samples',
                    'bin-never-raises', 'bin-means']
 BUDGET_S = {'quick': 150, 'thorough': 900}
 TWO_PI = 2 * math.pi
@@ -64,6 +64,10 @@ def configs(tier):
     for la, lb in lens:
         for npnt in ((2, 4) if tier == 'quick' else (2, 4, 6)):
             out.append(('align-%d+%d-np%d' % (la, lb, npnt), {'kind': 'align', 'lens': (la, lb), 'npoints': npnt}))
+    # user-supplied cycles that do not start at phase 0 (trough-to-trough labelling): at a grid point that coincides with a
+    # sample's phase the aligned value is that sample's value, for ANY quantity (interpolation passes through its data)
+    for ln in ((4,) if tier == 'quick' else (4, 5)):
+        out.append(('align-custom-cycle-len%d-np4' % ln, {'kind': 'align-custom', 'len': ln, 'npoints': 4}))
     for n in ((2, 3) if tier == 'quick' else (2, 3, 4)):
         for nb in ((2, 3, 4) if tier == 'quick' else (2, 3, 4, 5)):
             out.append(('bin-N%d-nb%d' % (n, nb), {'kind': 'bin', 'N': n, 'nbins': nb}))
@@ -138,6 +142,35 @@ def harness(h):
         h.check_eq(per, np.array(want, dtype=object), 'stat-per-cycle', (labels,))
         want_s = [float('nan') if labels[i] == -1 else want[labels[i]] for i in range(N)]
         h.check_eq(smp, np.array(want_s, dtype=object), 'stat-samples-projection', (labels,))
+    elif kind == 'align-custom':
+        L, npnt = h.params['len'], h.params['npoints']
+        N = L + 2
+        p = h.reals('p', N, lo=0, hi=TWO_PI, hi_open=True)
+        x = h.reals('x', N)
+        # one labelled cycle (samples 1..L) that wraps inside: phases ascend, wrap once, ascend again; all distinct
+        wrap_at = h.int('wrap_at', 2, L - 1)
+        wa = int(wrap_at)
+        for i in range(1, L):
+            if i == wa:
+                h.assume(p[i] - p[i + 1] > 1.5 * math.pi)
+            else:
+                h.assume(p[i + 1] > p[i])
+        h.assume(p[L] < p[1])          # the part after the wrap stays below the part before it
+        cyc = np.array([-1] + [0] * L + [-1])
+        _, centres = emd.spectra.define_hist_bins(0, TWO_PI, npnt)
+        from symnp.core import lift
+        k = int(h.int('grid_point', 0, npnt - 1))
+        j = int(h.int('sample', 1, L))
+        ck = lift(float(centres[k])) if h.symbolic else float(centres[k])
+        h.assume(p[j] == ck)
+        h.note('align:custom-cycles')
+        try:
+            avg, cen = emd.cycles.phase_align(p, x, cycles=cyc, npoints=npnt)
+        except Exception as e:
+            h.fail('align-never-raises', 'custom cycles: %s: %s' % (type(e).__name__, e))
+            return
+        h.check(True, 'align-never-raises')
+        h.check_eq(np.asarray(avg)[k, 0], x[j], 'align-through-samples', (wa, k, j))
     elif kind == 'align':
         la, lb = h.params['lens']
         npnt = h.params['npoints']
